@@ -36,8 +36,11 @@ def opdOf : FOperand C → Option (Opd C)
   | .lti L => some (.lti L)
   | .frd _ _ => none
 
-/-- read the postfix program as a tree; `none`: the program is not an `Expr` tree. -/
-partial def build (stack : List Item) : P (Option (Σ n, Expr C n)) := do
+/-- read the postfix program as a tree; `none`: the program is not an `Expr` tree.  `R i` names
+the object `i` of a history's store (`Driver/FRDHist.lean`): an FRD object is a LEAF holding the
+stored value, any other operand is the operand; an empty or missing slot: not a tree. -/
+partial def buildS (store : Array (Option (FOperand C))) (stack : List Item) :
+    P (Option (Σ n, Expr C n)) := do
   if (← atEnd) then
     match stack with
     | [.tree n e] => pure (some ⟨n, e⟩)
@@ -45,68 +48,80 @@ partial def build (stack : List Item) : P (Option (Σ n, Expr C n)) := do
   else
     let t ← tok
     match t with
+    | "R" =>
+      let i ← pNat
+      match store[i]? with
+      | some (some (.frd n F)) => buildS store (.tree n (.leaf F) :: stack)
+      | some (some x) =>
+        match opdOf x with
+        | some y => buildS store (.opd y :: stack)
+        | none => pure none
+      | _ => pure none
     | "F" =>
       match (← pLeafF) with
-      | .frd n F => build (.tree n (.leaf (force F)) :: stack)
+      | .frd n F => buildS store (.tree n (.leaf (force F)) :: stack)
       | _ => pure none
-    | "S" => let c ← pC; build (.opd (.scalar c) :: stack)
+    | "S" => let c ← pC; buildS store (.opd (.scalar c) :: stack)
     | "A" =>
       match opdOf (← pLeafA) with
-      | some x => build (.opd x :: stack)
+      | some x => buildS store (.opd x :: stack)
       | none => pure none
     | "LT" =>
       match opdOf (← pLeafLT) with
-      | some x => build (.opd x :: stack)
+      | some x => buildS store (.opd x :: stack)
       | none => pure none
     | "LS" =>
       match opdOf (← pLeafLS) with
-      | some x => build (.opd x :: stack)
+      | some x => buildS store (.opd x :: stack)
       | none => pure none
     | "neg" =>
       match stack with
-      | .tree n e :: rest => build (.tree n (.neg e) :: rest)
+      | .tree n e :: rest => buildS store (.tree n (.neg e) :: rest)
       | .opd x :: rest =>
         match opdOf (DFRD.negOperand x.toF) with
-        | some y => build (.opd y :: rest)
+        | some y => buildS store (.opd y :: rest)
         | none => pure none
       | _ => pure none
     | "pow" =>
       let k ← pInt
       match stack with
-      | .tree n e :: rest => build (.tree n (.pow e k) :: rest)
+      | .tree n e :: rest => buildS store (.tree n (.pow e k) :: rest)
       | _ => pure none
     | "fb" =>
       let sign ← pC
       match stack with
       | .tree nb b :: .tree n a :: rest =>
-        if h : nb = n then build (.tree n (.fb a (h ▸ b) sign) :: rest) else pure none
-      | .opd x :: .tree n a :: rest => build (.tree n (.fbV a x.toF sign) :: rest)
+        if h : nb = n then buildS store (.tree n (.fb a (h ▸ b) sign) :: rest) else pure none
+      | .opd x :: .tree n a :: rest => buildS store (.tree n (.fbV a x.toF sign) :: rest)
       | .tree n b :: .opd (.scalar c) :: rest =>
-        build (.tree n (.fbL (.scalar c) rfl b sign) :: rest)
+        buildS store (.tree n (.fbL (.scalar c) rfl b sign) :: rest)
       | .tree n b :: .opd (.array p m D) :: rest =>
-        build (.tree n (.fbL (.array p m D) rfl b sign) :: rest)
+        buildS store (.tree n (.fbL (.array p m D) rfl b sign) :: rest)
       | _ => pure none
     | "sel" =>
       let rows ← pList pNat
       let cols ← pList pNat
       match stack with
-      | .tree n e :: rest => build (.tree n (.sel e rows cols) :: rest)
+      | .tree n e :: rest => buildS store (.tree n (.sel e rows cols) :: rest)
       | _ => pure none
     | "eval" => pure none
     | "append" =>
       match stack with
       | .tree nb b :: .tree n a :: rest =>
-        if h : nb = n then build (.tree n (.append a (h ▸ b)) :: rest) else pure none
+        if h : nb = n then buildS store (.tree n (.append a (h ▸ b)) :: rest) else pure none
       | .opd (.lti L) :: .tree n a :: rest =>
-        build (.tree n (.appendV a (.lti L) rfl) :: rest)
+        buildS store (.tree n (.appendV a (.lti L) rfl) :: rest)
       | _ => pure none
     | name =>
       match binOpOf name, stack with
       | some op, .tree nb b :: .tree n a :: rest =>
-        if h : nb = n then build (.tree n (.bin op a (h ▸ b)) :: rest) else pure none
-      | some op, .opd x :: .tree n a :: rest => build (.tree n (.binV op a x.toF) :: rest)
-      | some op, .tree n b :: .opd x :: rest => build (.tree n (.rbin op x b) :: rest)
+        if h : nb = n then buildS store (.tree n (.bin op a (h ▸ b)) :: rest) else pure none
+      | some op, .opd x :: .tree n a :: rest => buildS store (.tree n (.binV op a x.toF) :: rest)
+      | some op, .tree n b :: .opd x :: rest => buildS store (.tree n (.rbin op x b) :: rest)
       | _, _ => pure none
+
+/-- a plain `frdtree` line: no store. -/
+def build (stack : List Item) : P (Option (Σ n, Expr C n)) := buildS #[] stack
 
 /-- the `frd` answer without its statistics prefix. -/
 def core (base : String) : String :=
